@@ -942,6 +942,60 @@ def hr_reuse_results(repo, tier="quick"):
     return parallel_map(_hr_reuse_job, list(range(len(hr_reuse_pairs()))))
 
 
+HR_FAIL_CASES = [("(zz & a)", [("zz", BOOL)]), ("((0 < zn) | a)", [("zn", INT)]), ("('z z' -> a)", [("z z", BOOL)]),
+                 ("(a & (forall q . (q | zz)))", [("zz", BOOL)]), ("(zz & ", [("zz", BOOL)]), ("(a & b) zz", [("zz", BOOL)])]
+
+
+def _hr_failure_job(idx):
+    """One HRParser object: a text over names that are not declared yet is rejected; the names are declared; the same
+    parser reads the text (and another one) as a fresh parser does."""
+    text, decls = HR_FAIL_CASES[idx]
+    shape = Shape(("And", S("a"), S("b")))
+    tag = "%r rejected, then %s declared, then read again by the same parser" % (text, ", ".join(n for n, _ in decls))
+
+    def call(w, it, f):
+        HR = it.module_global(w.repo.modules["pysmt.parsing"], "HRParser")
+        hp = it.call(HR, [w.env])
+        try:
+            it.call(it.getattr(hp, "parse"), [text])
+            first = "accepted"
+        except AbsRaise as ex:
+            first = "raises " + ex.cls_name
+        for n, so in decls:
+            w.symbol(n, so)
+        good = text if text.count("(") == text.count(")") and not text.endswith(" zz") else "(zz & a)"
+        out = []
+        for hp_ in (hp, it.call(HR, [w.env])):
+            r = []
+            for t in (good, "(a | b)"):
+                try:
+                    r.append(("ok", it.call(it.getattr(hp_, "parse"), [t])))
+                except AbsRaise as ex:
+                    r.append(("raise", ex.cls_name))
+            out.append(r)
+        return (first, out)
+
+    def post(w, f, val, facts):
+        return proc.ProcResult(shape, "valid", (w, val))
+    res = proc.run_proc(shape, call, post=post, services="full", interp_kwargs=BIG, max_paths=8, world_cls=TextWorld)
+    r = res[0]
+    if len(res) != 1 or r.kind != "valid":
+        return (tag, "unsupported", "%s %s" % (r.kind, str(r.detail)[:200]))
+    w, (first, (same, fresh)) = r.detail
+    if not first.startswith("raises"):
+        return (tag, "unsupported", "the first text is %s" % first)
+    for (k1, v1), (k2, v2) in zip(same, fresh):
+        if k1 != k2 or (k1 == "ok" and v1 is not v2) or (k1 == "raise" and v1 != v2):
+            return (tag, "invalid", "the parser that rejected the text %s; a fresh parser %s"
+                    % ("raises " + str(v1) if k1 == "raise" else "reads " + (sc.node_str(w, v1) if w.is_node(v1) else repr(v1)),
+                       "raises " + str(v2) if k2 == "raise" else "reads " + (sc.node_str(w, v2) if w.is_node(v2) else repr(v2))))
+    return (tag, "valid", "as a fresh parser (first attempt: %s)" % first)
+
+
+def hr_failure_results(repo, tier="quick"):
+    return parallel_map(_hr_failure_job, list(range(len(HR_FAIL_CASES))))
+
+
 def _outside_hr_fragment(t):
     """Array-value literals print their type, Array{Index, Element}(...); when a user sort occurs in it the text is
     outside the human-readable grammar (which names Bool / Int / Real / BV / Array only) - the property quantifies over
